@@ -15,7 +15,9 @@ NormE(e) == LET e1 == IF "prog" \in DOMAIN e THEN [e EXCEPT !.prog = FromJ(@)] E
 Judged(e) == ~e.opaque /\ "prog" \in DOMAIN e
 
 \* the legacy path has no interned-size cost mode, so the two are compared under byte cost only
-MatchC07(e) == "INTERNED_GENERATOR" \in RangeOf(e.flags) \/ Agree(e.native, e.legacy)
+MatchC07(e) == /\ "INTERNED_GENERATOR" \in RangeOf(e.flags) \/ Agree(e.native, e.legacy)
+               \* block references reach the generator in the order given (reference-selecting family)
+               /\ ("refsel" \in DOMAIN e /\ "prog" \in DOMAIN e /\ ~e.opaque) => RefSelConsistent(e)
 
 MatchNativeC01(e, n) ==
   /\ e.native.ok = n.ok
